@@ -470,7 +470,7 @@ theorem actStep_inv {s s' : St} {t : Tid} (hI : Inv s) (h : actStep s t = some s
         exact inv_pure_act hI ht hT (by simp [hact, Act.pure]) heff hwfr hedt0 ⟨rfl, rfl, rfl, rfl⟩ rfl
       | flush1 =>
         simp only [hact] at h
-        split at h <;> cases h <;>
+        cases h
         exact inv_pure_act hI ht hT (by simp [hact, Act.pure]) heff hwfr hedt0 ⟨rfl, rfl, rfl, rfl⟩ rfl
       | poll =>
         simp only [hact] at h
